@@ -220,6 +220,14 @@ func (p chartPage) Breadcrumbs() []breadcrumb {
 
 func handleChart(ctx context.Context, w http.ResponseWriter, date string, render renderer, chartBucket storage.BucketHandle) error {
 	// TODO(rfindley): refactor to return a content.HandlerFunc once we can use Go 1.22 routing.
+
+	// Chart objects are named by a date or a range of dates. A name with a path
+	// separator or ".." in it is not a chart and must not reach the bucket, where
+	// it would resolve outside the bucket's directory (ServeMux cleans the URL
+	// path of most requests, but not of CONNECT requests).
+	if strings.ContainsAny(date, `/\`) || strings.Contains(date, "..") {
+		return content.Status(w, http.StatusNotFound)
+	}
 	page := chartPage{Date: date}
 	var err error
 	objName := date + ".json"
